@@ -109,6 +109,40 @@ scan_region(const void * p, size_t n)
 				}
 		}
 }
+/* every release in the process, the C library's own included (getline growing its line buffer, stdio), is seen by the
+ * sanitizer run time: while a key file is being read, each released block is scanned too.  stdio's own buffer holds the raw
+ * file in the unchanged library as well and is released inside fclose(): that call is exempt. */
+#if defined(__SANITIZE_ADDRESS__)
+size_t __sanitizer_get_allocated_size(const volatile void *);
+void __sanitizer_free_hook(const volatile void *);
+static int scan_all_frees, in_fclose;
+void
+__sanitizer_free_hook(const volatile void * p)
+{
+	static int busy;
+
+	if (!scan_all_frees || in_fclose || busy || p == NULL || nsecrets == 0)
+		return;
+	busy = 1;
+	scan_region((const void *)p, __sanitizer_get_allocated_size(p));
+	busy = 0;
+}
+int __real_fclose(FILE *);
+int __wrap_fclose(FILE *);
+int
+__wrap_fclose(FILE * f)
+{
+	int rc;
+
+	in_fclose++;
+	rc = __real_fclose(f);
+	in_fclose--;
+	return (rc);
+}
+#else
+static int scan_all_frees;
+#endif
+
 /* blocks into which the library copied a string containing the current secret (key files): when such a block is released,
  * no byte of the copy may be left - a wipe that stops short of the end leaves the tail of the secret behind */
 static struct { void * p; size_t n; } secret_blocks[16];
@@ -347,8 +381,19 @@ do_hmac(char * l)
 		HMAC_MD5_Final(dig, &c); zero = allzero(&c, sizeof(c));
 		HMAC_MD5_Buf(key, klen, msg, len, one);
 	}
-	vt_begin("hmac"); vt_str("alg", alg); vt_str("key", strcmp(khex, "-") ? khex : ""); vt_str("msg", strcmp(hex, "-") ? hex : "");
-	vt_hex("digest", dig, dl); vt_hex("oneshot", one, dl); vt_bool("zero", zero); vt_end();
+	{
+		/* the one-shot call with the digest written over the start of the message, and over the start of the key (nothing in the
+		 * interface forbids it: the library's own generator does the former) */
+		uint8_t * tm = __real_malloc((len > dl ? len : dl) + 1), * tk = __real_malloc((klen > dl ? klen : dl) + 1);
+		uint8_t overm[32], overk[32];
+		memcpy(tm, msg, len); memcpy(tk, key, klen);
+		if (dl == 32) { HMAC_SHA256_Buf(key, klen, tm, len, tm); memcpy(overm, tm, dl); HMAC_SHA256_Buf(tk, klen, msg, len, tk); memcpy(overk, tk, dl); }
+		else if (dl == 20) { HMAC_SHA1_Buf(key, klen, tm, len, tm); memcpy(overm, tm, dl); HMAC_SHA1_Buf(tk, klen, msg, len, tk); memcpy(overk, tk, dl); }
+		else { HMAC_MD5_Buf(key, klen, tm, len, tm); memcpy(overm, tm, dl); HMAC_MD5_Buf(tk, klen, msg, len, tk); memcpy(overk, tk, dl); }
+		__real_free(tm); __real_free(tk);
+		vt_begin("hmac"); vt_str("alg", alg); vt_str("key", strcmp(khex, "-") ? khex : ""); vt_str("msg", strcmp(hex, "-") ? hex : "");
+		vt_hex("digest", dig, dl); vt_hex("oneshot", one, dl); vt_hex("overmsg", overm, dl); vt_hex("overkey", overk, dl); vt_bool("zero", zero); vt_end();
+	}
 }
 
 /* hashbig ALG LEN CHUNK : LEN bytes of the periodic pattern (byte i = P[i mod 1048573]) fed in updates of CHUNK bytes */
@@ -624,15 +669,17 @@ do_keyfile(char * l)
 	msg[len] = 0;
 	nsecrets = 0; tainted_frees = 0;
 	cur_secret = NULL; nsecret_blocks = 0;
-	if ((p = strstr((char *)msg, "ACCESS_KEY_SECRET=")) != NULL) {
+	for (p = (char *)msg; (p = strstr(p, "ACCESS_KEY_SECRET=")) != NULL; p += 18) {
 		size_t n = strcspn(p + 18, "\r\n");
-		secret_add(p + 18, n, "secret key");
-		cur_secret = p + 18; cur_secret_len = n;
+		secret_add(p + 18, n, "secret key");		/* (every value the file gives for the secret, not only the first) */
+		if (cur_secret == NULL) { cur_secret = p + 18; cur_secret_len = n; }
 	}
+	scan_all_frees = 1;
 	if ((fd = mkstemp(fname)) < 0) return;
 	if (len && write(fd, msg, len) != (ssize_t)len) { close(fd); unlink(fname); return; }
 	close(fd);
 	rc = aws_readkeys(fname, &id, &secret);
+	scan_all_frees = 0;
 	unlink(fname);
 	vt_begin("keyfile"); vt_str("in", hex); vt_int("rc", rc); vt_int("nsecrets", nsecrets);
 	vt_int("tainted", tainted_frees); if (tainted_frees) vt_str("what", tainted_what); vt_end();
